@@ -2,7 +2,7 @@
 # seedverify.sh <Cxx> <A|B>  : confirm a delivered seeded change in its scratch worktree:
 #   patch applies, existing suite passes with it, demo fails with it and passes without it.
 # prints one line: <Cxx> <X> suite=<ok|FAIL> demo_with=<fails|PASSES> demo_without=<passes|FAILS>
-ID=$1; X=$2; D=/tmp/seed-$ID
+ID=$1; X=$2; D=${SEEDROOT:-/tmp/seed}-$ID
 cd $D || exit 2
 git checkout -q -- src 2>/dev/null; rm -rf tests
 if ! git apply OUT/$X.patch.diff 2>/dev/null; then echo "$ID $X patch-does-not-apply"; exit 0; fi
